@@ -3,6 +3,7 @@ CONSTANTS
   KMax = 1
   MaxSteps = 3
   WithObs = FALSE
+  PurgeLast = FALSE
   Kinds = {"pos", "fail", "cut", "ask"}
 INIT Init
 NEXT Next
